@@ -87,6 +87,16 @@ theorem cur_pure_bind {α β} (a : α) (f : α → Cur β) : (pure a >>= f) = f 
 theorem lp8_enc_length (s : Bytes) : (lp8.enc s).length = 1 + s.length := by
   simp [lp8]; omega
 
+theorem liftDec_of_dec {α} {c : Codec α} {bs : Bytes} {p} (h : c.dec bs = some p) :
+    liftDec c bs = .ok p := by unfold liftDec; rw [h]
+
+theorem liftDec_ok_iff {α} {c : Codec α} {bs : Bytes} {p} :
+    liftDec c bs = .ok p ↔ c.dec bs = some p := by
+  unfold liftDec
+  cases c.dec bs with
+  | none => simp
+  | some q => simp
+
 theorem rd_u8_cons (n : UInt8) (r : Bytes) : Cur.rd u8 (n :: r) = .ok (n, r) := rfl
 
 theorem lp8_dec_cons (n : UInt8) (r : Bytes) :
